@@ -49,7 +49,11 @@ fn main() {
                 _ => posim::check::Tier::Quick,
             };
             let mut rng = posim::rng::Rng::derive(seed, idx, 0);
-            let case = posim::props::generate(&prop, tier, &mut rng, idx);
+            let case = match flag("--sys").and_then(|s| s.parse::<usize>().ok()) {
+                // the i-th systematic case instead of a random run
+                Some(i) => posim::props::systematic(&prop, tier, seed).into_iter().nth(i).expect("systematic case index"),
+                None => posim::props::generate(&prop, tier, &mut rng, idx),
+            };
             let rf = posim::scenario::ReplayFile {
                 property: prop.clone(),
                 class: "none".into(),
@@ -60,6 +64,7 @@ fn main() {
                 aux: case.aux.clone(),
                 original_steps: case.scenario.steps.len(),
                 scenario: case.scenario,
+                regenerate: None,
             };
             println!("{}", serde_json::to_string_pretty(&rf).unwrap());
         }
